@@ -337,21 +337,30 @@ func MainWith(m *testing.M, id string, cleanup func()) {
 	start := time.Now()
 	code := m.Run()
 	st.ElapsedS = time.Since(start).Seconds()
-	if pfx := os.Getenv("VERIF_STATS"); pfx != "" {
-		st.mu.Lock()
-		b, _ := json.Marshal(st)
-		os.WriteFile(pfx+".json", b, 0o644)
-		hs := make([]byte, 0, 8*len(st.hashes))
-		for k := range st.hashes {
-			hs = binary.LittleEndian.AppendUint64(hs, k)
-		}
-		os.WriteFile(pfx+".nt", hs, 0o644)
-		st.mu.Unlock()
-	}
+	FlushStats()
 	if cleanup != nil {
 		cleanup()
 	}
 	os.Exit(code)
+}
+
+// FlushStats writes the statistics of the process (cases, classes, failures found so far) where the driver
+// expects them. MainWith calls it at the regular end; a fixture that has to end the process early (a live server
+// that cannot be started) calls it first, so that what the properties before it found is not lost.
+func FlushStats() {
+	pfx := os.Getenv("VERIF_STATS")
+	if pfx == "" {
+		return
+	}
+	st.mu.Lock()
+	defer st.mu.Unlock()
+	b, _ := json.Marshal(st)
+	os.WriteFile(pfx+".json", b, 0o644)
+	hs := make([]byte, 0, 8*len(st.hashes))
+	for k := range st.hashes {
+		hs = binary.LittleEndian.AppendUint64(hs, k)
+	}
+	os.WriteFile(pfx+".nt", hs, 0o644)
 }
 
 // Errf is a shorthand for building violation errors.
